@@ -68,7 +68,8 @@ static void out_flush(void) {
 
 /* ------------------------------------------------------------------ callbacks */
 static int log_writes = 1;
-static void write_cb(uint8_t *b, int32_t n) { if (log_writes) out_hex("w", b, n); }
+static void slow_write_hook(void);
+static void write_cb(uint8_t *b, int32_t n) { slow_write_hook(); if (log_writes) out_hex("w", b, n); }
 
 #define RXCAP (1 << 20)
 static uint8_t rxbuf[RXCAP];
